@@ -593,7 +593,9 @@ def reports_for(prop, run, table=None):
         d.update({"mode": r["mode"], "trace": r["trace"], "raw": r["line"], "seed": r["seed"], "maxops": r["maxops"],
                   "engine": r.get("engine")})
         if d["kind"] == "SPEC":
-            if d.get("prop") == prop:
+            # a driver that crashed, hung or was killed left its histories unchecked: that concerns
+            # every property this engine serves, not only the one the engine names by default
+            if d.get("prop") == prop or str(d.get("pred", "")).startswith("driver_"):
                 spec.append(d)
         elif d["kind"] == "MISMATCH":
             props = table.get((d.get("who"), d.get("field")), ["*"])
